@@ -63,7 +63,24 @@ func isFreshWrite(a Access) bool {
 	if !ok {
 		return false
 	}
-	v := st.Addr
+	return addrRootedAtAlloc(st.Addr)
+}
+
+// isFreshAccess: any access (read or write) to an object allocated in the same
+// function (a constructor working on an unpublished object).
+func isFreshAccess(a Access) bool {
+	switch x := a.Instr.(type) {
+	case *ssa.Store:
+		return addrRootedAtAlloc(x.Addr)
+	case *ssa.UnOp:
+		return addrRootedAtAlloc(x.X)
+	case *ssa.Slice:
+		return addrRootedAtAlloc(x.X)
+	}
+	return false
+}
+
+func addrRootedAtAlloc(v ssa.Value) bool {
 	for i := 0; i < 6; i++ {
 		switch x := v.(type) {
 		case *ssa.FieldAddr:
@@ -93,10 +110,16 @@ func (c *Check) checkOwnership(rule string) {
 	for _, r := range roots {
 		for fn := range r.Funcs {
 			for _, a := range p.fieldAccesses(fn) {
-				if a.Write && isFreshWrite(a) {
+				if isFreshAccess(a) {
 					continue
 				}
-				acc[key{a.Struct, a.Field}] = append(acc[key{a.Struct, a.Field}], racc{r.Name, a})
+				// accesses of a helper the rules do not know are attributed to
+				// its known callers inside this root (as if it were inlined)
+				for _, owner := range p.knownOwners(fn, r.Funcs) {
+					b := a
+					b.Fn = owner
+					acc[key{a.Struct, a.Field}] = append(acc[key{a.Struct, a.Field}], racc{r.Name, b})
+				}
 			}
 		}
 	}
@@ -414,6 +437,8 @@ func chanFieldName(v ssa.Value) string {
 	case *ssa.ChangeType:
 		return chanFieldName(x.X)
 	case *ssa.FreeVar:
+		return x.Name()
+	case *ssa.Parameter:
 		return x.Name()
 	}
 	return ""
